@@ -199,6 +199,13 @@ def gen_partition(tape, n):
 def gen_case(tape, tier):
     fam = tape.pick(["parts", "parts", "learners", "learners", "reject"], "family")
     w = None
+    if fam == "reject" and tape.coin(0.06, "no-mapspec-pipeline"):
+        from sim.genpipe import gen_dag
+
+        wd = gen_dag(tape)  # a pipeline without any MapSpec: every axis name is unknown to it
+        return {"family": "reject", "workload": wd, "fixed": {tape.pick(["i", "zz", sorted(wd["inputs"])[0]], "unknown-name"): 0},
+                "kind": "unknown", "via_learners": bool(tape.coin(0.4, "via-learners")),
+                "config": {"storage": tape.pick(list(C.STORAGES), "storage")}}
     if fam == "reject" and tape.coin(0.4, "want-grown"):
         for _ in range(12):
             cand = gen_workload(tape, max_funcs=4, min_funcs=2)
@@ -311,6 +318,8 @@ def gen_case(tape, tier):
             "config": {"storage": "file_array"}}
     if tape.coin(0.25, "learner-crash"):
         case["learner_crash"] = 3 + tape.choose(40, "crash-at")
+    elif tape.coin(0.2, "earlier-session"):
+        case["earlier_session"] = True  # the same process drove learners on this folder before, with other inputs
     return case
 
 
@@ -751,6 +760,15 @@ def _run_learners(case, w, ref, folder, process, V, probes, tape):
     seen = collections.Counter()
 
     def go(sim, cleanup=True, crash_at=None):
+        if case.get("earlier_session") and cleanup:
+            # the SAME process (one simulation: module state and hash salt are those of one interpreter) drove learners on
+            # this folder before, with other inputs
+            try:
+                earlier(sim)
+                probes["earlier_learner_session"] = 1
+            except Exception:  # noqa: BLE001 - the other inputs were refused: nothing happened
+                pass
+            del sim.calls[:]
         if crash_at is not None:
             sim.fs.crash_at = sim.fs.n + crash_at  # the process running the learners dies before that file-system event
         p = build_pipeline(w)
@@ -794,6 +812,21 @@ def _run_learners(case, w, ref, folder, process, V, probes, tape):
         return len(ld)
 
     stored = collections.Counter()
+    def earlier(sim):
+        if True:
+            from pipefunc.map.adaptive import create_learners as cl
+
+            p0 = build_pipeline(w)
+            ld0 = cl(p0, c05._variant_inputs(w, build_inputs(w)), folder, internal_shapes=map_kwargs(w).get("internal_shapes"),
+                     storage=case["config"]["storage"], cleanup=True)
+            for gens in ld0.values():
+                for gen in gens:
+                    for lp in gen:
+                        while not lp.learner.done():
+                            pts, _ = lp.learner.ask(1)
+                            for pt in pts:
+                                lp.learner.tell(pt, lp.learner.function(pt))
+
     if case.get("learner_crash") is not None:
         # the process that drives the learners dies somewhere in the middle; the learners are then created again on the
         # same folder with cleanup=False and run to the end: nothing stored is redone, nothing half-stored counts as done
